@@ -16,6 +16,7 @@ import (
 	"crypto/tls"
 	"fmt"
 	"net"
+	"reflect"
 	"runtime/debug"
 	"sort"
 	"strings"
@@ -936,4 +937,57 @@ func (d *TLSDialer) DialContext(ctx context.Context, network, addr string) (net.
 
 func (d *TLSDialer) Dial(network, addr string) (net.Conn, error) {
 	return d.DialContext(context.Background(), network, addr)
+}
+
+// VarSnap keeps deep copies of the package-level maps of an instrumented package (taken the first time Restore is
+// called, after all init functions) and puts fresh copies back on every later call, so that whatever a run adds to a
+// process-wide table lazily is gone when the next run starts: every simulated run begins in a cold process.
+type VarSnap struct {
+	taken bool
+	vals  map[string]reflect.Value
+}
+
+// Restore takes name -> pointer to the package-level variable; variables that are not maps are left alone.
+func (s *VarSnap) Restore(vars map[string]any) {
+	if !s.taken {
+		s.taken = true
+		s.vals = map[string]reflect.Value{}
+		for name, p := range vars {
+			v := reflect.ValueOf(p).Elem()
+			if v.Kind() == reflect.Map && !v.IsNil() {
+				s.vals[name] = deepCopyValue(v)
+			}
+		}
+		return
+	}
+	for name, p := range vars {
+		if snap, ok := s.vals[name]; ok {
+			reflect.ValueOf(p).Elem().Set(deepCopyValue(snap))
+		}
+	}
+}
+
+func deepCopyValue(v reflect.Value) reflect.Value {
+	switch v.Kind() {
+	case reflect.Map:
+		if v.IsNil() {
+			return v
+		}
+		out := reflect.MakeMapWithSize(v.Type(), v.Len())
+		it := v.MapRange()
+		for it.Next() {
+			out.SetMapIndex(it.Key(), deepCopyValue(it.Value()))
+		}
+		return out
+	case reflect.Slice:
+		if v.IsNil() {
+			return v
+		}
+		out := reflect.MakeSlice(v.Type(), v.Len(), v.Len())
+		for i := 0; i < v.Len(); i++ {
+			out.Index(i).Set(deepCopyValue(v.Index(i)))
+		}
+		return out
+	}
+	return v
 }
